@@ -8,6 +8,10 @@ mod simple;
 mod val;
 mod lit;
 mod ident;
+mod expr;
+mod stmt;
+mod render;
+mod exprfam;
 
 pub type Handler = fn(&J) -> J;
 
@@ -24,6 +28,8 @@ fn main() {
         "esc" => simple::esc,
         "lit" => lit::lit,
         "ident" => ident::ident,
+        "expr" => exprfam::exprcase,
+        "cond" => exprfam::condcase,
         _ => {
             eprintln!("unknown family {family}");
             std::process::exit(2);
